@@ -420,7 +420,7 @@ class Parser:
     def _rvalue_curly(self, dest, code_gen):
         if not self._rvalue_expr(dest, code_gen):
             return False
-        if self.current_token != '}':
+        if not self._at_mark('}'):
             return self.token_error("Expected closing curly brace, got {}.")
         return self.next_token()
 
@@ -450,6 +450,11 @@ class Parser:
         if dest is not OpCode.PUSH:
             code_gen.pop(dest)
         return True
+
+    def _at_mark(self, mark) -> bool:
+        # The punctuation itself, not a quoted string with that content.
+        return (self._current_token.is_a(TokenTypes.MARK)
+                and self._current_token.content == mark)
 
     def _at_rvalue(self, include_reg=True) -> bool:
         token = self.current_token
@@ -574,7 +579,7 @@ class Parser:
         self._add_instruction(OpCode.CTX)
         self.next_token()
         for param_name in routine.value.params:
-            if self.current_token == ']':
+            if self._at_mark(']'):
                 return self.trigger_error(
                     'Missing parameter {}'.format(param_name))
             if not self._rvalue():
@@ -582,7 +587,7 @@ class Parser:
             self._add_instruction(OpCode.PARAM, param_name, Register.RESULT)
         self._add_instruction(OpCode.JSR, routine.name)
         if bracketed:
-            if str(self.current_token) != ']':
+            if not self._at_mark(']'):
                 return self.trigger_error(
                     'No closing bracket for function call.')
             self.next_token()
